@@ -21,6 +21,8 @@ type SpecEnv struct {
 	oldAlloc *Term
 	inOld    bool
 	inPre    bool
+	snaps    map[string][]Val // bound slice arguments: elements at the time of the call
+	bindHeap map[string]map[string]*Term // argument binders of call events: the heap when that call started
 	heapOverride map[string]*Term // evaluate against this heap instead of the current one
 	depth    int
 }
@@ -82,6 +84,24 @@ func (env *SpecEnv) pkg() *types.Package {
 
 func specBool(t *Term) Val { return Val{T: t, Ty: types.Typ[types.Bool]} }
 func specInt(t *Term) Val  { return Val{T: t} }
+
+// rootBinder: the identifier an access path starts from (x.f, x[i], asptr(x, T).f, capt(x, "v")[i], len(x), ...)
+func rootBinder(e *SExpr) string {
+	switch e.Kind {
+	case "ident":
+		return e.Name
+	case "sel", "index":
+		return rootBinder(e.Args[0])
+	case "call":
+		switch e.Name {
+		case "asptr", "astype", "isptr", "istype", "capt", "closureof", "len", "content", "backing", "fresh":
+			if len(e.Args) > 0 {
+				return rootBinder(e.Args[0])
+			}
+		}
+	}
+	return ""
+}
 
 func (ex *Executor) evalSpec(e *SExpr, env *SpecEnv) (Val, error) {
 	switch e.Kind {
@@ -551,6 +571,13 @@ func (ex *Executor) selectField(base Val, idx int, env *SpecEnv) (Val, error) {
 }
 
 func (ex *Executor) evalIndex(e *SExpr, env *SpecEnv) (Val, error) {
+	if env.snaps != nil && e.Args[0].Kind == "ident" && e.Args[1].Kind == "num" {
+		if sn, ok := env.snaps[e.Args[0].Name]; ok {
+			if k, err := strconv.Atoi(e.Args[1].Num); err == nil && k >= 0 && k < len(sn) {
+				return ex.recover(sn[k]), nil
+			}
+		}
+	}
 	base, err := ex.evalSpec(e.Args[0], env)
 	if err != nil {
 		return Val{}, err
@@ -606,6 +633,18 @@ func (ex *Executor) evalCallSpec(e *SExpr, env *SpecEnv) (Val, error) {
 		c := *env
 		c.inOld = true
 		return ex.evalSpec(e.Args[0], &c)
+	case "atcall":
+		// atcall(x, e): e evaluated in the state in which the call whose argument x was bound (bind_x) started
+		if len(e.Args) != 2 || e.Args[0].Kind != "ident" {
+			return Val{}, fmt.Errorf("atcall(binder, expr)")
+		}
+		h, ok := env.bindHeap[e.Args[0].Name]
+		if !ok {
+			return Val{}, fmt.Errorf("atcall: %s is not an argument binder of a call event", e.Args[0].Name)
+		}
+		c := *env
+		c.heapOverride = h
+		return ex.evalSpec(e.Args[1], &c)
 	case "pre":
 		// value at the start of the current segment (function entry or loop head)
 		c := *env
@@ -798,6 +837,53 @@ func (ex *Executor) evalCallSpec(e *SExpr, env *SpecEnv) (Val, error) {
 			return Val{}, err
 		}
 		return specBool(Select(Select(env.heapArr("M.dom", SAAIB), m.T), k.T)), nil
+	case "closureof":
+		// closureof(v, "name$k"): the function value v is a closure of the named function literal (or the named function)
+		a, err := argv(0)
+		if err != nil {
+			return Val{}, err
+		}
+		if len(e.Args) != 2 || e.Args[1].Kind != "str" {
+			return Val{}, fmt.Errorf("closureof(v, \"function name\")")
+		}
+		a = ex.recover(a)
+		if a.Fn == nil || a.Fn.Fn == nil {
+			if debugRows {
+				fmt.Printf("DEBUG closureof: %s evaluates to %v (not a known closure)\n", e.Args[0], a.T)
+			}
+			return specBool(tFalse), nil
+		}
+		n := funcKeyOrName(a.Fn.Fn)
+		return specBool(Bool(nameMatches(n, e.Args[1].Name) || strings.HasSuffix(n, "."+e.Args[1].Name))), nil
+	case "capt":
+		// capt(v, "x"): the value the closure v captured for its free variable x (read at the current state)
+		a, err := argv(0)
+		if err != nil {
+			return Val{}, err
+		}
+		if len(e.Args) != 2 || e.Args[1].Kind != "str" {
+			return Val{}, fmt.Errorf("capt(v, \"variable name\")")
+		}
+		a = ex.recover(a)
+		if a.Fn == nil || a.Fn.Fn == nil {
+			return Val{}, fmt.Errorf("capt: %s is not a known closure (%v)", e.Args[0], a.T)
+		}
+		for i, fv := range a.Fn.Fn.FreeVars {
+			if fv.Name() == e.Args[1].Name && i < len(a.Fn.Bind) {
+				b := a.Fn.Bind[i]
+				if b.Ty == nil {
+					b.Ty = fv.Type()
+				}
+				if env.heapOverride != nil {
+					if p := ex.ptrOf(b); p.Kind == PCell && !isStruct(p.Elem) {
+						srt := sortOf(p.Elem)
+						return ex.recover(Val{T: Select(heapGetIn(env.heapOverride, cellName(srt), arrayOf(srt)), p.Base), Ty: p.Elem}), nil
+					}
+				}
+				return ex.load(env.st, b), nil
+			}
+		}
+		return Val{}, fmt.Errorf("capt: closure does not capture %s", e.Args[1].Name)
 	case "strbyte":
 		a, err := argv(0)
 		if err != nil {
